@@ -225,6 +225,37 @@ func TestTqvWitness(t *testing.T) {
 			add("two sessions on one connection: dispatch was %v, want %s", log, want)
 		}
 	}
+	// replayed / non-increasing sequence numbers on a session that waits for a continuation:
+	// refused without reaching any handler, connection closed — with and without single-connect
+	for _, flags := range []byte{0, byte(SingleConnect)} {
+		mk := func(seq byte) []byte {
+			pk := tqvPacket(secret, 51, seq, start("zoe"))
+			pk[3] = flags // header flags are not part of the pad
+			return pk
+		}
+		conn := &tqvScript{chunks: [][]byte{mk(1), mk(1), mk(1)}, failWith: io.EOF}
+		calls := 0
+		var entry HandlerFunc
+		entry = func(response Response, request Request) {
+			calls++
+			response.Next(entry)
+			response.Reply(NewAuthenReply(SetAuthenReplyStatus(AuthenStatusGetPass)))
+		}
+		s := &Server{loggerProvider: tqvLogger{}}
+		done := make(chan struct{})
+		go func() { defer close(done); s.handle(context.Background(), newCrypter(secret, conn, false), entry) }()
+		select {
+		case <-done:
+		case <-time.After(3 * time.Second):
+			add("replay (flags %#x): loop still running", flags)
+		}
+		if calls != 1 {
+			add("request 1 replayed on a session awaiting request 3 (header flags %#x): %d handler invocations, want 1", flags, calls)
+		}
+		if len(conn.chunks) < 1 || conn.closed != 1 {
+			add("request 1 replayed (header flags %#x): the connection was not closed at the refused request (unread packets %d, closed %d)", flags, len(conn.chunks), conn.closed)
+		}
+	}
 	out := map[string]interface{}{"obligation": "tacquito.Server.handle/* tacquito.crypter.read/*", "scenario": "three packets under four segmentations; read deadline mid-header; wrong-secret continuation",
 		"mismatches": bad, "violated": len(bad) > 0}
 	b, _ := json.Marshal(out)
